@@ -711,6 +711,25 @@ func hotWrappers(t *testing.T, goroutines, values int) {
 	hotWrappersCfg(t, goroutines, values/3+1, fix.OpenCfg{Preload: true, CacheCap: -1})
 }
 
+// sharedTreesLockstep: all goroutines execute the SAME expression tree objects
+// (distinct Query values), position by position, at the same time.
+func sharedTreesLockstep(t *testing.T, goroutines, values int) {
+	spec := gen.DataSpec{Recipe: &gen.Recipe{N: 3000, Cols: []gen.ColSpec{
+		{Name: "a", Kind: gen.KMod, K: values, Prefix: "v"}, {Name: "b", Kind: gen.KMod, K: 3}}}}
+	for _, oc := range []fix.OpenCfg{{CacheCap: -1}, {Preload: true, CacheCap: 1 << 26}} {
+		c := &Case{Data: spec, Open: oc, Rounds: 1, Lockstep: true, ShareExpr: true}
+		var w []Q
+		for v := 0; v < values; v++ {
+			a, b := model.Eq("a", fmt.Sprintf("v%d", v)), model.Eq("b", fmt.Sprint(v%3))
+			w = append(w, Q{Expr: model.And(a, model.Not(b))}, Q{Expr: model.Or(model.And(a, b), model.Not(model.Or(a, b))), GroupBy: []string{"b"}})
+		}
+		for g := 0; g < goroutines; g++ {
+			c.Work = append(c.Work, w)
+		}
+		run(t, c, "inprocess")
+	}
+}
+
 func hotWrappersCfg(t *testing.T, goroutines, values int, oc fix.OpenCfg) {
 	spec := gen.DataSpec{Recipe: &gen.Recipe{N: 3000, Cols: []gen.ColSpec{
 		{Name: "a", Kind: gen.KMod, K: values, Prefix: "v"}, {Name: "b", Kind: gen.KMod, K: 3}}}}
@@ -959,6 +978,7 @@ func TestQuick(t *testing.T) {
 	// first: the first executions of the process arrive together (whatever
 	// the library sets up lazily is set up under concurrency)
 	hotWrappers(t, 8, 300)
+	sharedTreesLockstep(t, 8, 150)
 	fix.Pinned(t, prop, replay)
 	runFresh(t, &FreshCase{Attempts: 700, Readers: 4, Queriers: 4})
 	bigFirstUse(t, 70001, 6, fix.OpenCfg{CacheCap: -1})
@@ -972,6 +992,7 @@ func TestQuick(t *testing.T) {
 
 func TestThorough(t *testing.T) {
 	hotWrappers(t, 12, 1000) // first: the first executions of the process arrive together
+	sharedTreesLockstep(t, 12, 400)
 	if shard, _ := evid.Shard(); shard == 0 {
 		fix.Pinned(t, prop, replay)
 	}
